@@ -9,6 +9,8 @@
 //   extra_alias the extra pool maps the wtxid of a block transaction to a different transaction (two candidates for one id)
 //   twin_pool   the pool holds a witness-malleated twin of a block transaction
 //   bad_prefill prefilled index overflow / beyond the end / null transaction ; empty / null header encodings
+//   stripped    the sender encodes a witness-stripped variant of the block (all witnesses incl. the coinbase's reserved value, or
+//               neighbouring partial strips); each stripped tx arrives prefilled / from the mempool / from the extra pool / by blocktxn
 // blocktxn classes: exact, wrong_tx, reordered, too_few, too_many, twin (malleated witness), empty.
 //
 // Oracle (online, and re-checked from the log by checks/C38.py with an own merkle implementation): if InitData and FillBlock both
@@ -121,7 +123,7 @@ std::string HashList(const std::vector<uint256>& v)
     return vh::JArr(s);
 }
 
-const char* ENC[] = {"honest", "coll_slot", "dup_id", "extra_alias", "twin_pool", "bad_prefill", "degenerate"};
+const char* ENC[] = {"honest", "coll_slot", "dup_id", "extra_alias", "twin_pool", "bad_prefill", "degenerate", "stripped"};
 const char* RESP[] = {"exact", "wrong_tx", "reordered", "too_few", "too_many", "twin", "empty"};
 
 } // namespace
@@ -136,9 +138,9 @@ VH_CMD(cmpct)
         auto violation = [&](const std::string& key, const std::string& msg, const vh::J& d) {
             if (bad++ < 3) vh::log().violation(key, msg, d);
         };
-        const int enc = static_cast<int>(rng.weighted({34, 22, 6, 12, 12, 8, 6}));
+        const int enc = static_cast<int>(rng.weighted({30, 18, 6, 10, 10, 8, 6, 18}));
         int resp = static_cast<int>(rng.weighted({50, 12, 10, 8, 8, 8, 4}));
-        const bool with_witness = rng.chance(3, 4) || enc == 4;
+        const bool with_witness = rng.chance(3, 4) || enc == 4 || enc == 7;
         const bool segwit_active = with_witness ? true : rng.chance(3, 4);
 
         // ---- the announced block ----
@@ -152,7 +154,7 @@ VH_CMD(cmpct)
         block.vtx.resize(ntx);
         bool any_wit = false;
         for (size_t i = 1; i < ntx; ++i) {
-            const bool w = with_witness && (rng.coin() || (enc == 4 && i == 1));
+            const bool w = with_witness && (rng.coin() || ((enc == 4 || enc == 7) && i == 1));
             any_wit |= w;
             block.vtx[i] = MakeTransactionRef(RandTx(rng, w));
         }
@@ -191,6 +193,44 @@ VH_CMD(cmpct)
             ann_t.push_back(tx->GetHash().ToUint256());
         }
 
+        // ---- class "stripped": the sender encodes a witness-stripped variant of the announced block (same header, same txids) ----
+        // strip modes: all witnesses incl. the coinbase's reserved value | all but the coinbase | coinbase only | all but one tx | random subset.
+        // Every stripped transaction reaches the receiver through a chosen channel: 0 prefilled, 1 mempool, 2 extra pool, 3 blocktxn answer.
+        CBlock stripped_block;
+        std::vector<bool> is_stripped(ntx, false);
+        std::vector<int> chan(ntx, -1);
+        int strip_mode = -1;
+        if (enc == 7) {
+            stripped_block = block;
+            const auto sm = rng.below(9);
+            strip_mode = sm <= 4 ? 0 : static_cast<int>(sm) - 4; // 0 all, 1 all but coinbase, 2 coinbase only, 3 all but one, 4 random
+            std::vector<size_t> wit;
+            for (size_t i = 1; i < ntx; ++i)
+                if (block.vtx[i]->HasWitness()) wit.push_back(i);
+            const size_t keep = wit.empty() ? 0 : rng.pick(wit);
+            const int one_channel = rng.chance(1, 3) ? static_cast<int>(rng.below(4)) : -1;
+            for (size_t i = 0; i < ntx; ++i) {
+                if (!block.vtx[i]->HasWitness()) continue;
+                bool strip;
+                switch (strip_mode) {
+                case 0: strip = true; break;
+                case 1: strip = i != 0; break;
+                case 2: strip = i == 0; break;
+                case 3: strip = i != keep; break;
+                default: strip = rng.coin(); break;
+                }
+                if (!strip) continue;
+                CMutableTransaction m(*block.vtx[i]);
+                for (auto& in : m.vin) in.scriptWitness.SetNull();
+                stripped_block.vtx[i] = MakeTransactionRef(std::move(m));
+                is_stripped[i] = true;
+                if (i == 0) chan[i] = rng.chance(4, 5) ? 0 : (rng.coin() ? 3 : 2);
+                else chan[i] = one_channel >= 0 ? one_channel : static_cast<int>(rng.below(4));
+            }
+            if (rng.chance(3, 4)) resp = 0;
+        }
+        const CBlock& src = enc == 7 ? stripped_block : block; // what the sender encodes / serves
+
         // ---- pool state ----
         bilingual_str err;
         CTxMemPool pool{MemPoolOptionsForTest(setup.m_node), err};
@@ -201,19 +241,28 @@ VH_CMD(cmpct)
         std::vector<CTransactionRef> twins(ntx);
         std::set<size_t> twin_in_pool;
         for (size_t i = 1; i < ntx; ++i) {
-            const bool make_twin = block.vtx[i]->HasWitness() && ((enc == 4 && (i == 1 || rng.chance(1, 4))) || rng.chance(1, 30));
+            if (is_stripped[i]) {
+                if (chan[i] == 1) TryAddToMempool(pool, entry.Fee(1000).FromTx(src.vtx[i]));
+                else if (chan[i] == 2) extra.emplace_back(src.vtx[i]->GetWitnessHash(), src.vtx[i]);
+                // the genuine transaction may sit in a pool as well (its short id is not announced)
+                if (chan[i] != 1 && rng.chance(1, 4)) TryAddToMempool(pool, entry.Fee(1000).FromTx(block.vtx[i]));
+                else if (rng.chance(1, 6)) extra.emplace_back(block.vtx[i]->GetWitnessHash(), block.vtx[i]);
+                continue;
+            }
+            const bool make_twin = enc != 7 && src.vtx[i]->HasWitness() && ((enc == 4 && (i == 1 || rng.chance(1, 4))) || rng.chance(1, 30));
             if (make_twin) {
-                twins[i] = Twin(rng, *block.vtx[i]);
+                twins[i] = Twin(rng, *src.vtx[i]);
                 twin_in_pool.insert(i);
                 if (rng.coin()) TryAddToMempool(pool, entry.Fee(1000).FromTx(twins[i]));
                 else extra.emplace_back(twins[i]->GetWitnessHash(), twins[i]);
                 // the genuine transaction may be in the *other* pool
-                if (rng.chance(1, 3)) extra.emplace_back(block.vtx[i]->GetWitnessHash(), block.vtx[i]);
+                if (rng.chance(1, 3)) extra.emplace_back(src.vtx[i]->GetWitnessHash(), src.vtx[i]);
                 continue;
             }
-            if (rng.below(10) < p_mem) TryAddToMempool(pool, entry.Fee(1000).FromTx(block.vtx[i]));
-            if (rng.below(10) < p_extra) extra.emplace_back(block.vtx[i]->GetWitnessHash(), block.vtx[i]);
+            if (rng.below(10) < p_mem) TryAddToMempool(pool, entry.Fee(1000).FromTx(src.vtx[i]));
+            if (rng.below(10) < p_extra) extra.emplace_back(src.vtx[i]->GetWitnessHash(), src.vtx[i]);
         }
+        if (is_stripped[0] && chan[0] == 2) extra.emplace_back(src.vtx[0]->GetWitnessHash(), src.vtx[0]);
         const size_t n_unrel = rng.below(12) + (enc == 1 ? 1 : 0);
         for (size_t i = 0; i < n_unrel; ++i) {
             auto tx = MakeTransactionRef(RandTx(rng, rng.coin()));
@@ -235,15 +284,17 @@ VH_CMD(cmpct)
         std::vector<bool> prefilled(ntx, false);
         prefilled[0] = !rng.chance(1, 10);
         for (size_t i = 1; i < ntx; ++i) prefilled[i] = rng.chance(1, 6);
-        if (enc != 0 && ntx >= 2) prefilled[1] = false; // slot 1 is the adversarial slot
+        if (enc != 0 && enc != 7 && ntx >= 2) prefilled[1] = false; // slot 1 is the adversarial slot
+        for (size_t i = 0; i < ntx; ++i)
+            if (is_stripped[i]) prefilled[i] = chan[i] == 0;
         {
             int64_t last = -1;
             for (size_t i = 0; i < ntx; ++i) {
                 if (prefilled[i]) {
-                    raw.prefilled.emplace_back(static_cast<uint64_t>(static_cast<int64_t>(i) - last - 1), block.vtx[i]);
+                    raw.prefilled.emplace_back(static_cast<uint64_t>(static_cast<int64_t>(i) - last - 1), src.vtx[i]);
                     last = static_cast<int64_t>(i);
                 } else {
-                    raw.shortids.push_back(ref_enc.GetShortID(block.vtx[i]->GetWitnessHash()));
+                    raw.shortids.push_back(ref_enc.GetShortID(src.vtx[i]->GetWitnessHash()));
                 }
             }
         }
@@ -274,8 +325,8 @@ VH_CMD(cmpct)
             break;
         case 3: // the extra pool maps the wtxid of block tx 1 to another transaction
             if (ntx >= 2) {
-                CTransactionRef other = rng.coin() || ntx < 3 ? MakeTransactionRef(RandTx(rng, rng.coin())) : block.vtx[2 + rng.below(ntx - 2)];
-                extra.insert(extra.begin() + rng.below(extra.size() + 1), {block.vtx[1]->GetWitnessHash(), other});
+                CTransactionRef other = rng.coin() || ntx < 3 ? MakeTransactionRef(RandTx(rng, rng.coin())) : src.vtx[2 + rng.below(ntx - 2)];
+                extra.insert(extra.begin() + rng.below(extra.size() + 1), {src.vtx[1]->GetWitnessHash(), other});
                 collision_presented = true;
             }
             break;
@@ -292,11 +343,11 @@ VH_CMD(cmpct)
                 int64_t last = -1;
                 for (const auto& pf : raw.prefilled) last += static_cast<int64_t>(pf.first) + 1;
                 const int64_t abs_idx = static_cast<int64_t>(raw.shortids.size() + raw.prefilled.size()) + (k == 4 ? 1 : 0);
-                raw.prefilled.emplace_back(static_cast<uint64_t>(abs_idx - last - 1), block.vtx[0]);
-            } else if (k == 0) raw.prefilled.emplace_back(0xffff, block.vtx[0]);                     // far beyond the end
-            else if (k == 1) raw.prefilled.emplace_back(raw.shortids.size() + 3, block.vtx[0]); // just beyond the end
+                raw.prefilled.emplace_back(static_cast<uint64_t>(abs_idx - last - 1), src.vtx[0]);
+            } else if (k == 0) raw.prefilled.emplace_back(0xffff, src.vtx[0]);                     // far beyond the end
+            else if (k == 1) raw.prefilled.emplace_back(raw.shortids.size() + 3, src.vtx[0]); // just beyond the end
             else if (k == 2) {
-                for (int i = 0; i < 3; ++i) raw.prefilled.emplace_back(0xfffe, block.vtx[0]); // accumulated index overflows 16 bits
+                for (int i = 0; i < 3; ++i) raw.prefilled.emplace_back(0xfffe, src.vtx[0]); // accumulated index overflows 16 bits
             } else {
                 raw.prefilled.emplace_back(0, MakeTransactionRef(CMutableTransaction{})); // null transaction
             }
@@ -310,7 +361,7 @@ VH_CMD(cmpct)
             } else if (k == 1) {
                 raw.header.SetNull();
             } else {
-                raw.prefilled.emplace_back(0, block.vtx[ntx - 1]); // one transaction too many at the end (block tx repeated)
+                raw.prefilled.emplace_back(0, src.vtx[ntx - 1]); // one transaction too many at the end (block tx repeated)
             }
             break;
         }
@@ -347,7 +398,7 @@ VH_CMD(cmpct)
                 n_missing = missing.size();
                 // ---- blocktxn answer ----
                 std::vector<CTransactionRef> vtx_missing;
-                for (size_t i : missing) vtx_missing.push_back(i < ntx ? block.vtx[i] : block.vtx[ntx - 1]);
+                for (size_t i : missing) vtx_missing.push_back(i < ntx ? src.vtx[i] : src.vtx[ntx - 1]);
                 if (missing.empty() && resp != 4) resp = 0;
                 switch (resp) {
                 case 1: vtx_missing[rng.below(vtx_missing.size())] = MakeTransactionRef(RandTx(rng, rng.coin())); break;
@@ -356,15 +407,15 @@ VH_CMD(cmpct)
                     else resp = 0;
                     break;
                 case 3: vtx_missing.pop_back(); break;
-                case 4: vtx_missing.push_back(rng.coin() ? block.vtx[rng.below(ntx)] : MakeTransactionRef(RandTx(rng, false))); break;
+                case 4: vtx_missing.push_back(rng.coin() ? src.vtx[rng.below(ntx)] : MakeTransactionRef(RandTx(rng, false))); break;
                 case 5: {
                     std::vector<size_t> cand;
                     for (size_t k = 0; k < missing.size(); ++k)
-                        if (missing[k] < ntx && missing[k] > 0 && block.vtx[missing[k]]->HasWitness()) cand.push_back(k);
+                        if (missing[k] < ntx && missing[k] > 0 && src.vtx[missing[k]]->HasWitness()) cand.push_back(k);
                     if (cand.empty()) resp = 0;
                     else {
                         const size_t k = rng.pick(cand);
-                        vtx_missing[k] = Twin(rng, *block.vtx[missing[k]]);
+                        vtx_missing[k] = Twin(rng, *src.vtx[missing[k]]);
                     }
                     break;
                 }
@@ -396,6 +447,26 @@ VH_CMD(cmpct)
             }
         }
         const bool ok = st_init == READ_STATUS_OK && st_fill == READ_STATUS_OK;
+        if (enc == 7 && st_init == READ_STATUS_OK && resp == 0) {
+            size_t nstripped = 0;
+            for (size_t i = 0; i < ntx; ++i) {
+                if (!is_stripped[i]) continue;
+                ++nstripped;
+                static const char* CH[] = {"strip_via_prefill", "strip_via_mempool", "strip_via_extra", "strip_via_blocktxn"};
+                vh::log().obs(CH[chan[i]]);
+            }
+            bool all = nstripped > 0;
+            for (size_t i = 0; i < ntx; ++i)
+                if (block.vtx[i]->HasWitness() && !is_stripped[i]) all = false;
+            if (all) {
+                vh::log().obs("strip_all_presented");
+                if (!ok) vh::log().obs("strip_all_rejected");
+            } else if (nstripped > 0) {
+                vh::log().obs("strip_partial_presented");
+                if (!ok) vh::log().obs("strip_partial_rejected");
+            }
+            if (is_stripped[0]) vh::log().obs("strip_coinbase_reserved_value");
+        }
         vh::log().obs(ok ? "ok" : "failed");
         vh::log().obs(std::string("enc_") + ENC[enc]);
         if (st_init == READ_STATUS_OK) vh::log().obs(std::string("resp_") + RESP[resp]);
@@ -412,7 +483,7 @@ VH_CMD(cmpct)
         if (st_fill == READ_STATUS_INVALID) vh::log().obs("fill_invalid");
         if (st_fill == READ_STATUS_FAILED) vh::log().obs("fill_failed");
         vh::J j;
-        j.u("case", c).str("enc", ENC[enc]).str("resp", RESP[resp]).b("segwit", segwit_active).u("ntx", ntx)
+        j.u("case", c).str("enc", ENC[enc]).i("strip_mode", strip_mode).str("resp", RESP[resp]).b("segwit", segwit_active).u("ntx", ntx)
             .str("init", deser_fail ? "DESER" : StatusName(st_init)).str("fill", st_fill < 0 ? "-" : StatusName(st_fill)).b("deser_fail", deser_fail)
             .raw("ann_w", HashList(ann_w));
         if (ok) j.raw("got_w", HashList(got_w)).raw("got_t", HashList(got_t)).hex("got_hash", out.GetHash()).hex("ann_hash", block.GetHash());
